@@ -50,14 +50,187 @@ def render_cmd_path(path):
         else: s += ('.' if s else '') + str(k)
     return s
 
+# ------------------------------------------------------------------------------------------------
+# command-line STRINGS: the string step of process_cmdline against AY.Model.Cmdline (driver op c08tokens)
+# ------------------------------------------------------------------------------------------------
+import yaml as _pyyaml
+
+class _AnyTagLoader(_pyyaml.BaseLoader):
+    """BaseLoader (every scalar stays a string) that constructs nodes with application tags (!notnew, !new, ...) as if untagged"""
+
+def _construct_any(loader, suffix, node):
+    if isinstance(node, _pyyaml.MappingNode): return loader.construct_mapping(node, deep=True)
+    if isinstance(node, _pyyaml.SequenceNode): return loader.construct_sequence(node, deep=True)
+    return loader.construct_scalar(node)
+
+_AnyTagLoader.add_multi_constructor('!', _construct_any)
+
+def _flow_value(text):
+    """what PyYAML makes of `text` as ONE flow-context node (strings only); ('bad',) when it is not exactly one node"""
+    if text == '':
+        return ''
+    try:
+        v = _pyyaml.load('[ ' + text + ' ]', Loader=_AnyTagLoader)
+    except _pyyaml.YAMLError:
+        return ('bad',)
+    return v[0] if isinstance(v, list) and len(v) == 1 else ('bad',)
+
+def _nesting(text):
+    """{'path': key texts, 'value': data} of the nested single-key flow mappings `{ k: { k: ... value }}` that
+    process_cmdline emits, read back with PyYAML; None when the text does not parse to that shape"""
+    ind = len(text) - len(text.rstrip('}'))      # the text ends with value + ' ' + '}' * ind
+    try:
+        cur = _pyyaml.load(text, Loader=_AnyTagLoader)
+    except _pyyaml.YAMLError:
+        return None
+    path = []
+    for _ in range(ind):
+        if not isinstance(cur, dict) or len(cur) != 1:
+            return None
+        (k, cur), = cur.items()
+        if not isinstance(k, str):
+            return None
+        path.append(k)
+    return {'path': path, 'value': cur}
+
+def _loader_keys(text):
+    """the mapping keys (JSON form) the awesomeyaml loader itself builds along the nesting of `text`; None on failure"""
+    from awesomeyaml import yaml as ay_yaml
+    ind = len(text) - len(text.rstrip('}'))
+    try:
+        cur = list(ay_yaml.parse(text))[0]
+    except Exception:  # noqa
+        return None
+    keys = []
+    for _ in range(ind):
+        if not isinstance(cur, dict) or len(cur) != 1:
+            return None
+        (k, cur), = cur.items()
+        keys.append(native_key(k))
+    return keys
+
+def cmdline_obs(opt):
+    """implementation side: one option string through the real Config.process_cmdline"""
+    try:
+        yamls, _names, raws = Config.process_cmdline([opt])
+    except (ValueError, IndexError) as e:      # only the inline branch raises: int() of a subscript, key[0] of an empty key
+        return {'type': 'inline', 'error': type(e).__name__}
+    text, raw = yamls[0], raws[0]
+    typ = 'file' if not raw else ('raw' if text == opt else 'inline')    # an inline option never reproduces itself
+    obs = {'type': typ, 'text': text, 'raw': raw}
+    if typ == 'inline':
+        obs['nest'] = _nesting(text)
+        obs['keys'] = _loader_keys(text)
+    return obs
+
+def cmdline_model_obs(a):
+    """the same observable from one answer of the driver op c08tokens:
+       {"type":"raw"|"file","text":str,"raw":bool} | {"type":"inline","error":"IndexError"|"ValueError"}
+       | {"type":"inline","tagged":bool,"parts":[[name,[int...]]...],"value":str,"path":[key...],"ykeys":[key|null...],"text":str,"raw":true}"""
+    if 'error' in a:
+        return {'type': a['type'], 'error': a['error']}
+    obs = {'type': a['type'], 'text': a['text'], 'raw': a['raw']}
+    if a['type'] == 'inline':
+        keys, ykeys = [], []
+        for (name, idx), yk in zip(a['parts'], a['ykeys']):
+            keys.append(name.strip(' ')); keys += [str(i) for i in idx]      # YAML trims the blanks around a plain key
+            ykeys.append(yk); ykeys += idx
+        v = _flow_value(a['value'])
+        obs['nest'] = None if v == ('bad',) else {'path': keys, 'value': v}
+        obs['keys'] = None if any(k is None for k in ykeys) else ykeys
+    return obs
+
+def compare_cmdline(opt, wf, io, a, want_path=None):
+    """None, or how model and implementation differ on the option string `opt`.
+    Always compared: option type, exception class, the emitted text character by character, the raw_yaml flag.
+    For well-formed options (wf: identifier names, a flow-safe value) also the nesting PyYAML reads from the text against the
+    model's tokens, and the keys the awesomeyaml loader builds against tokensToPath / yamlNameKey; want_path: the path the
+    spelling was generated from."""
+    mo = cmdline_model_obs(a)
+    for f in ('type', 'error', 'text', 'raw'):
+        if io.get(f) != mo.get(f):
+            return f'option {opt!r}: {f} differs: implementation {io.get(f)!r}, model {mo.get(f)!r}'
+    if not wf or 'error' in io or io['type'] != 'inline':
+        return None
+    if io['nest'] is None or mo['nest'] is None or io['nest'] != mo['nest']:
+        return f'option {opt!r}: PyYAML reads the emitted text {io["text"]!r} as {io["nest"]!r}, the model tokens give {mo["nest"]!r}'
+    if mo['keys'] is not None and io['keys'] != mo['keys']:
+        return f'option {opt!r}: the loader builds the keys {io["keys"]!r}, the model (tokensToPath / yamlNameKey) {mo["keys"]!r}'
+    got = [k.strip(' ') if isinstance(k, str) else k for k in a['path']]      # YAML trims the blank left in front of a subscript
+    if want_path is not None and got != want_path:
+        return f'option {opt!r}: spelled for the path {want_path!r}, the model reads {a["path"]!r}'
+    return None
+
+_WS = ['', '', '', ' ', '  ']
+
+def spell_index(rng, i):
+    """a spelling of the integer i that Python's int() reads back as i: sign, leading zeros, one underscore, blanks"""
+    s = str(abs(i))
+    r = rng.random()
+    if r < 0.15: s = '0' * rng.choice([1, 2]) + s
+    elif r < 0.25 and len(s) > 1: s = s[0] + '_' + s[1:]
+    sign = '-' if i < 0 else ('+' if rng.random() < 0.15 else '')
+    return rng.choice(_WS) + sign + s + rng.choice(_WS)
+
+def spell_override(rng, path, value):
+    """a messy spelling of the override of `path` (names and integer indices, first a name) that denotes the same path:
+    blanks around '.', around '=', inside the brackets, between a name and its first subscript, at both ends.
+    (No blank between two subscripts: that ends the peeling loop of process_cmdline.)"""
+    out = rng.choice(_WS)
+    for j, k in enumerate(path):
+        if isinstance(k, int):
+            out += '[' + spell_index(rng, k) + ']'
+        else:
+            if j: out += rng.choice(_WS) + '.' + rng.choice(_WS)
+            out += str(k)
+            if j + 1 < len(path) and isinstance(path[j + 1], int): out += rng.choice(['', '', ' '])
+    return out + rng.choice(_WS) + '=' + rng.choice(_WS) + value + rng.choice(_WS)
+
+CMD_VALUES = ['7', 'hello', 'null', 'true', '1.5', '[1, 2]', '"q r"', 'k=v', 'x.y', '"a=b.c"', '{p: 1}', '[a.b, c=d]', '-3']
+_NAMES = ['a', 'b1', '_x', 'A_9', 'k', 'x', 'n0_', 'Z']
+_FUZZ = list('ab1_.=[]{}!- +\n\t0') + ['\x1c', '\xa0', '٣', '　', '１', '_', ']', '[', '=', '.']
+_BAD_INDEX = ['', 'x', '1.0', '0x1', '--1', '1_', '_1', '1__0', '- 1', '1 2', '9' * 4301]
+_EDGE = ['=5', 'a=', '=', ' = ', '{a: 1}', '{a=1}', ' {a=1} ', '{', '{a=1', 'a=1}', 'a.yaml', ' f.yaml ', 'a[0]b=1', '12]=1', ']=1',
+         'a[]=1', 'a[[1]=2', 'a[1]]=2', 'a[0][1=2', 'a[1.0]=1', 'a[0] [1]=2', '!new a.b=5', '!del a=1', 'a.b.=1', '.a=1', 'a..b=1',
+         'a=1\n', 'a=1\nb=2', '\na=1', 'a.0=5', 'a.true=1', 'a[' + '1' * 4300 + ']=1', 'a[1' + '_1' * 4300 + ']=1']
+
+def gen_cmdline_strings(rng, n):
+    """n option strings with their well-formedness flag and (for the well-formed ones) the path they spell"""
+    opts, wf, paths = [], [], []
+    for _ in range(n):
+        r = rng.random()
+        if r < 0.5:        # a well-formed override in a messy spelling
+            path = [rng.choice(_NAMES)]
+            for _j in range(rng.choice([0, 1, 1, 2, 3, 4])):
+                path.append(rng.choice(_NAMES) if rng.random() < 0.5 else rng.choice([0, 1, 2, 10, 12, 305, -1, -2, -17]))
+            opts.append(spell_override(rng, path, rng.choice(CMD_VALUES))); wf.append(True); paths.append(path)
+        elif r < 0.7:      # a broken subscript somewhere, or text after a subscript
+            path = [rng.choice(_NAMES), rng.choice([0, 1, -1]), rng.choice(_NAMES), rng.choice([0, 5])]
+            o = spell_override(rng, path, rng.choice(CMD_VALUES))
+            j = rng.choice([i for i, c in enumerate(o) if c == ']'])
+            b = o.rfind('[', 0, j)
+            o = o[:b + 1] + rng.choice(_BAD_INDEX) + o[j:] if rng.random() < 0.7 else o[:j + 1] + rng.choice(['b', ' [1]', '_']) + o[j + 1:]
+            opts.append(o); wf.append(False); paths.append(None)
+        elif r < 0.9:      # character soup
+            opts.append(''.join(rng.choice(_FUZZ) for _j in range(rng.randrange(0, 14)))); wf.append(False); paths.append(None)
+        else:
+            opts.append(rng.choice(_EDGE)); wf.append(False); paths.append(None)
+    return opts, wf, paths
+
 class C08(MergeFamProp):
     ID = 'C08'
     VOCAB = G.Vocab(notnew=True, new=True)
     RULE = ('a random plain base document followed by (A) an overriding document rooted !notnew that rewrites existing paths, mistypes keys '
             'at random depths, addresses lists by existing / out-of-range / negative indices and re-allows creation below nested !new nodes, '
-            'or (B) command-line overrides a.b[i].c=value (existing and mistyped paths, scalar and list values) through '
-            'Config.build_from_cmdline; non-trivial = the override touches at least one existing path; distinct by SHA-1')
-    ASSUMPTIONS = ['for (B) the string -> YAML step of process_cmdline is exercised on the implementation only (the model receives the equivalent document)']
+            'or (B) command-line overrides a.b[i].c=value (existing and mistyped paths, scalar and list values; spelled with random blanks '
+            "around '.', '=', inside brackets, signs / leading zeros / underscores in indices, values containing '=' and '.') through "
+            'Config.build_from_cmdline, or (T) bare option strings (well-formed overrides in messy spellings, broken subscripts, '
+            'character soup, edge cases) through Config.process_cmdline alone; for (B) and (T) the model tokenises the very same '
+            'strings (driver op c08tokens) and must reproduce the option type, the exception class and the emitted YAML text character by '
+            'character, and for well-formed options the nesting PyYAML reads from that text; '
+            'non-trivial = the override touches at least one existing path; distinct by SHA-1')
+    ASSUMPTIONS = ['between the YAML text emitted by process_cmdline (modelled: AY.Model.Cmdline.emitText) and the override document '
+                   '(modelled: emitDoc / c08_rawDoc) sits PyYAML, which is compared at run time, not verified']
 
     def corpus(self):
         D = lambda kind, *raws, **kw: dict({'docs': [{'raw': r} for r in raws], 'style': ['flow', 0, 0], 'kind': kind}, **kw)
@@ -68,6 +241,10 @@ class C08(MergeFamProp):
             D('A', base, M({'a': M({'n': M({'deep': S(1)}, kw={'new': True})})}, kw={'new': False})),
             D('B', base, cmd=['a.b[0].c=7']), D('B', base, cmd=['a.b[0].x=7']), D('B', base, cmd=['a.b[-1]=[1, 2]', 'f=null']),
             D('B', base, cmd=['a.b[2]=1']),
+            D('B', base, cmd=['a.b[0].c=7', 'a.e=k=v'], spell=[' a . b [ +0 ] . c = 7 ', 'a.e = k=v']),
+            {'docs': [], 'style': ['flow', 0, 0], 'kind': 'T', 'opts': list(_EDGE), 'wf': [False] * len(_EDGE), 'paths': [None] * len(_EDGE)},
+            {'docs': [], 'style': ['flow', 0, 0], 'kind': 'T', 'opts': [' a . b1 [ 0 ][-1] = x=y.z ', 'a[007][1_0].k={p: 1}'], 'wf': [True, True],
+             'paths': [['a', 'b1', 0, -1], ['a', 7, 10, 'k']]},
         ]
 
     def gen_cases(self, rng, n, tier):
@@ -76,7 +253,7 @@ class C08(MergeFamProp):
             base = M([(k, gen_plain_value(rng, 3)) for k in rng.sample(['a', 'b', 'c', 'k', 'x'], rng.choice([2, 3, 4]))])
             bp = plain_of(base)
             ps = [p for p in paths_of_py(bp) if p]
-            kind = rng.choice(['A', 'A', 'B'])
+            kind = rng.choice(['A', 'A', 'B', 'T'])
             if kind == 'A':
                 items = {}
                 for _i in range(rng.choice([1, 1, 2, 3])):
@@ -111,8 +288,11 @@ class C08(MergeFamProp):
                 o = build(items)
                 o['kw'] = {'new': False}; o['t'] = {'k': 'plain'}
                 out.append({'docs': [{'raw': base}, {'raw': o}], 'style': ['flow', 0, 0], 'kind': 'A'})
+            elif kind == 'T':
+                opts, wf, paths = gen_cmdline_strings(rng, rng.choice([4, 8, 12]))
+                out.append({'docs': [], 'style': ['flow', 0, 0], 'kind': 'T', 'opts': opts, 'wf': wf, 'paths': paths})
             else:
-                cmds = []
+                cmds, spell = [], []
                 for _i in range(rng.choice([1, 1, 2])):
                     p = list(rng.choice(ps))
                     if not isinstance(p[0], str):
@@ -120,10 +300,11 @@ class C08(MergeFamProp):
                     if rng.random() < 0.3:
                         j = rng.randrange(len(p))
                         p = p[:j] + [rng.choice(['typo', 9])] if j > 0 else p + ['typo']
-                    v = rng.choice(['7', 'hello', 'null', 'true', '1.5', '[1, 2]', '"q r"'])
+                    v = rng.choice(['7', 'hello', 'null', 'true', '1.5', '[1, 2]', '"q r"', 'k=v', 'x.y', '"a=b.c"'])
                     cmds.append(render_cmd_path(p) + '=' + v)
+                    spell.append(spell_override(rng, p, v) if rng.random() < 0.7 else cmds[-1])
                 if cmds:
-                    out.append({'docs': [{'raw': base}], 'style': ['flow', 0, 0], 'kind': 'B', 'cmd': cmds})
+                    out.append({'docs': [{'raw': base}], 'style': ['flow', 0, 0], 'kind': 'B', 'cmd': cmds, 'spell': spell})
         return out
 
     def cmd_docs(self, case):
@@ -144,22 +325,58 @@ class C08(MergeFamProp):
         return docs
 
     def impl(self, case):
+        if case.get('kind') == 'T':
+            return {'cmdline': [cmdline_obs(o) for o in case['opts']]}
         if case.get('kind') != 'B':
             return super().impl(case)
         text = render_doc(case['docs'][0]['raw'])
+        spell = case.get('spell', case['cmd'])      # the strings actually handed to the implementation
         try:
-            cfg = Config.build_from_cmdline('{ ' + text.strip()[1:-1] + ' }' if False else text, *case['cmd'])
+            cfg = Config.build_from_cmdline('{ ' + text.strip()[1:-1] + ' }' if False else text, *spell)
             from evalrun import conv_val, renumber, WorldImpl
             with WorldImpl(self.WORLD) as w:
                 r = {'ok': renumber(conv_val(cfg, w, {})), 'log': []}
         except Exception as e:  # noqa
             r = classify_error(e); r['log'] = []
         full = case['docs'] + self.cmd_docs(case)
-        return {'tree': impl_merge(full), 'cfg': r, 'cfg_docs': impl_config(full, self.WORLD)}
+        return {'tree': impl_merge(full), 'cfg': r, 'cfg_docs': impl_config(full, self.WORLD), 'cmdline': [cmdline_obs(o) for o in spell]}
 
     def model_requests(self, case):
+        if case.get('kind') == 'T':
+            return [{'op': 'c08tokens', 'options': case['opts']}]
         docs = case['docs'] + (self.cmd_docs(case) if case.get('kind') == 'B' else [])
-        return [{'op': 'merge', 'docs': docs}, {'op': 'config', 'docs': docs, 'world': self.WORLD}]
+        reqs = [{'op': 'merge', 'docs': docs}, {'op': 'config', 'docs': docs, 'world': self.WORLD}]
+        if case.get('kind') == 'B':
+            reqs.append({'op': 'c08tokens', 'options': case.get('spell', case['cmd'])})
+        return reqs
+
+    def model_obs(self, case, answers):
+        if case.get('kind') == 'T':
+            return {'tokens': answers[0]}
+        mo = super().model_obs(case, answers)
+        if len(answers) > 2:
+            mo['tokens'] = answers[2]
+        return mo
+
+    def compare(self, case, io, mo):
+        kind = case.get('kind')
+        if kind in ('B', 'T'):
+            tk = mo['tokens']
+            if 'ok' not in tk:
+                return f'driver op c08tokens failed: {json.dumps(tk)[:200]}'
+            if kind == 'T':
+                opts, wf, paths = case['opts'], case['wf'], case['paths']
+            else:       # the path every spelling must denote: the one of the canonical command
+                opts = case.get('spell', case['cmd'])
+                wf = [True] * len(opts)
+                paths = [[sc_py(k) for k in NodePath.get_list_path(c.split('=', 1)[0])] for c in case['cmd']]
+            for o, w, p, i, a in zip(opts, wf, paths, io['cmdline'], tk['ok']):
+                d = compare_cmdline(o, w, i, a, p)
+                if d:
+                    return 'command line: ' + d
+            if kind == 'T':
+                return None
+        return super().compare(case, io, mo)
 
     def oracle(self, case, io, ans):
         kind = case.get('kind')
@@ -240,7 +457,34 @@ class C08(MergeFamProp):
 
     def render(self, case):
         r = super().render(case)
-        return r + (['cmdline: ' + ' '.join(case['cmd'])] if case.get('cmd') else [])
+        if case.get('kind') == 'T':
+            return r + ['option: ' + repr(o) for o in case['opts']]
+        return r + (['cmdline: ' + ' '.join(repr(o) for o in case.get('spell', case['cmd']))] if case.get('cmd') else [])
+
+    def features(self, case, io):
+        f = super().features(case, io) + ['kind:' + str(case.get('kind'))]
+        for o in (io.get('cmdline') or []) if isinstance(io, dict) else []:
+            f.append('option:' + o['type'] + ('/' + o['error'] if 'error' in o else ''))
+        if case.get('spell') and case['spell'] != case['cmd']:
+            f.append('cmdline:messy-spelling')
+        return f
+
+    def shrink(self, case):
+        if case.get('kind') == 'T':
+            n = len(case['opts'])
+            for i in range(n):
+                if n > 1:
+                    yield dict(case, opts=case['opts'][:i] + case['opts'][i + 1:], wf=case['wf'][:i] + case['wf'][i + 1:],
+                               paths=case['paths'][:i] + case['paths'][i + 1:])
+            for i, o in enumerate(case['opts']):
+                for j in range(len(o)):     # drop one character (the option is then no longer known to be well-formed)
+                    yield dict(case, opts=case['opts'][:i] + [o[:j] + o[j + 1:]] + case['opts'][i + 1:],
+                               wf=case['wf'][:i] + [False] + case['wf'][i + 1:], paths=case['paths'][:i] + [None] + case['paths'][i + 1:])
+            return
+        for c in super().shrink(case):
+            if case.get('spell'):
+                c = {k: v for k, v in c.items() if k != 'spell'}      # shrunk documents keep the canonical spelling
+            yield c
 
     def nontrivial(self, case, io):
         return True
